@@ -114,7 +114,10 @@ def check(case):
         if ug != P:
             lab.append("inferred")
             if case.get("rules", True):
-                lab += _rule_usage(utils, A)
+                try:                      # classification only (uses the library's public rule_k helpers); never part of the verdict
+                    lab += _rule_usage(utils, A)
+                except Exception:         # noqa: BLE001
+                    lab.append("rule_usage_unavailable")
         if case.get("alldags") and case.get("dtype") != "weighted":     # all_dags is only specified for 0/1 PDAGs
             res = must(lib(utils.all_dags, M), "all_dags(maximally_orient)")
             gs, n = result_set(res, p, "all_dags")
